@@ -91,7 +91,7 @@ def run_tlc(module, cfg, workers=8, timeout=600, env=None, simulate=None, depth=
     """Run TLC on spec/<module>.tla with spec/<cfg>.  Returns TLCResult.
     Lines printed with PrintT(ToJson(x)) are collected in .json (parsed)."""
     md = tempfile.mkdtemp(prefix='tlc_', dir=scratch())
-    cmd = ['java', '-XX:+UseParallelGC', '-Xmx6g', '-Xss64m',
+    cmd = ['java', '-XX:+UseParallelGC', '-Xmx6g', '-Xss64m', f'-Djava.io.tmpdir={md}',      # TLC's own temp dirs go with the metadir
            '-cp', '/opt/veriftools/tla/tla2tools.jar:/opt/veriftools/tla/CommunityModules-deps.jar',
            'tlc2.TLC', '-workers', str(workers), '-metadir', md, '-noGenerateSpecTE',
            '-config', cfg]
